@@ -71,6 +71,7 @@ func (e *Engine) modelCall(st *State, fn *ssa.Function, args []Val, site ssa.Ins
 		case "Load":
 			e.rgHavoc(st, p)
 			v := e.loadPtr(st, p)
+			st.ghost["load_seen"] = v
 			if typ == "Pointer" {
 				v.Typ = fn.Signature.Results().At(0).Type()
 			}
@@ -99,7 +100,7 @@ func (e *Engine) modelCall(st *State, fn *ssa.Function, args []Val, site ssa.Ins
 			}
 			ok := e.S.Fresh("cas_ok", "Bool")
 			st.assume(fmt.Sprintf("(= %s (= %s %s))", ok, cur.T, e.asTerm(st, old)))
-			st.ghost["$cas_seen"] = cur
+			st.ghost["cas_seen"] = cur
 			e.storePtr(st, p, term(fmt.Sprintf("(ite %s %s %s)", ok, e.asTerm(st, nv), cur.T), vt))
 			k(st, []Val{term(ok, tBool)})
 			return true
